@@ -104,6 +104,14 @@ def check_entry(sc):
         if iso1 != iso4:
             out.fail("isothermal_flag_differs", "the %s schedule is treated as isothermal=%r on a fresh model and isothermal=%r when %s" % (sc["T"][0], iso1, iso4, what))
         out.label("after_prior_schedule")
+    # the typed setters of the parameter object (setIsothermalTemperature / setTemperatureArray / setTemperatureFunction), called on an
+    # empty object handed to the constructor, and on the model's own object after whatever schedules were set before
+    for entry, what in (("typed_ctor", "typed setter on an empty parameter object given to the constructor"), ("typed", "typed setter on the model's parameter object")):
+        r5 = H.run(sc, temperature_entry=entry)
+        _compare(out, r1["model"], r5["model"], "model.setTemperature vs %s (%s)" % (what, sc["T"][0]))
+        iso5 = r5["model"].temperatureParameters._isIsothermal
+        if iso1 != iso5:
+            out.fail("isothermal_flag_differs", "the %s schedule is treated as isothermal=%r through model.setTemperature and isothermal=%r through the %s" % (sc["T"][0], iso1, iso5, what))
     pd = r1["model"].pData
     out.label("T_" + sc["T"][0], sc["iterator"])
     out.nt((sc["T"][0] != "const" or bool(sc.get("T_prior"))) and bool(np.any(pd.nucRate > 0)) and len(pd.time) > 10)
@@ -160,7 +168,7 @@ def clauses():
                rule="generator: toy binary single-phase scenario with a 2-5 break-point schedule (heat/cool/hold segments of 0.2-120 K, as array or function), maxTempChange in {0.1,0.5,1,3,10}, optional maxNonIsothermalDT, both iterators, 1-3 solve calls, cap 300; "
                     "oracle: recorded T = schedule(t) exactly; tabulated equilibrium composition inverted through the analytic solvus lies within maxTempChange of the current temperature; non-trivial: total change > 3 maxTempChange, some step changing T by less than maxTempChange, nucleation rate > 0 somewhere"),
         Clause("entry", _entry_scenario, check_entry, quick=60, thorough=1200, shrink=False,
-               rule="generator: the same scenarios; each run through the constructor parameter object and through the setter, and (for profiles) as array and as equivalent function; and (2 in 3) set after 1-2 other schedules (constant/array/function, the first possibly through the constructor) had been set on the same model; pData compared exactly, same isothermal/non-isothermal treatment; non-trivial: non-constant schedule or a prior schedule, with nucleation and > 10 steps"),
+               rule="generator: the same scenarios; each run through the constructor parameter object and through the setter, and (for profiles) as array and as equivalent function; and (2 in 3) set after 1-2 other schedules (constant/array/function, the first possibly through the constructor) had been set on the same model; and through the typed setters of the parameter object (on an empty object given to the constructor; on the model's object after the earlier schedules); pData compared exactly, same isothermal/non-isothermal treatment; non-trivial: non-constant schedule or a prior schedule, with nucleation and > 10 steps"),
     ]
     try:
         from . import c13_diff
